@@ -378,4 +378,11 @@ def _conjuncts(t: str) -> list[str]:
     return [t]
 
 
-RULES = [rule_a, rule_b, rule_c, rule_d, rule_e]
+def rule_f(ctx: Ctx) -> None:
+    """A wildcard admits a name exactly when it is in the denoted set - also when the content is skipped: the constraint test
+    lies on every path of the wildcard validators (wild.constraint_first body)."""
+    from .wild import constraint_first
+    constraint_first(ctx, 'C16.f')
+
+
+RULES = [rule_a, rule_b, rule_c, rule_d, rule_e, rule_f]
